@@ -33,6 +33,9 @@ ValOK(r, o) ==
   /\ (Has(r, "cells") => /\ Chk("matrix", ToSet(r.cells) = Matrix(o))
                          /\ Chk("matrix-count", Len(r.cells) = r.C))
   /\ Chk("merged-flag", r.merged = o.merged)
+  \* flavor and window offset are the documented functions of (lgK, C) - what every reader of an image assumes
+  /\ Chk("flavor-of-count", r.flavor = DocFlavor(o.lgK, r.C))
+  /\ Chk("window-offset-of-count", r.alloc => r.woff = DocOffset(o.lgK, r.C))
   /\ IconOK(o, r.est)
   \* C06(a): lb3 <= lb2 <= lb1 <= est <= ub1 <= ub2 <= ub3 (order on renamed doubles)
   /\ Chk("C06:bounds", /\ r.lb[3] <= r.lb[2] /\ r.lb[2] <= r.lb[1] /\ r.lb[1] <= r.est
